@@ -6,6 +6,7 @@ import pathsum
 import runsum
 from pathsum import ERR, NONE, OK, SOME, show_term, strip_sites
 
+RERUN_ON_CONFIGS = ("dfm", "std")
 LEVEL = "other"
 RULE_TEXT = ("C06-R: per loop-body path of Interface::run - Incomplete: no report, input returned unchanged; other parse "
              "error: exactly one handle_error(From(error)) and the next input starts after the faulty message's "
